@@ -607,7 +607,11 @@ impl Lexer<'_> {
                     }
                 }
                 LexerMode::StringExpr { .. } => {
-                    // This may happen if we have unbalanced `"` or `'` as the last character
+                    // This may happen if we have unbalanced `"` or `'` as the last character.
+                    // The handler pops the mode it handles, which we have already done above,
+                    // so put it back first - otherwise the next pending mode would be lost
+                    // without being finalized
+                    self.push_mode(mode);
                     self.handle_unterminated_str_expr(Payload::None);
                 }
                 LexerMode::MacroNameExpr(_, err) => {
